@@ -2,282 +2,194 @@
 import re
 from core import *  # noqa
 from roles import *  # noqa
-import roles, shared, symex, taint
+import roles, shared, symex, taint, inline, absint
+import queue_rules as Q
+import parser_rules as PRS
+import framing_rules as FRM
 
 EXPLANATION = (
-    "Decision extraction, sanitiser-before-check provenance and error discipline on MIR: HeaderField::from_str rejects any whitespace "
-    "in a name and Header::from_str splits at the first colon; the text handed to Header::from_str by the connection parser must derive "
-    "from the received line without a function that removes leading whitespace (such a trim erases exactly the evidence the check looks "
-    "for); the Content-Length parse must (a) route its failure to an Err return of new_request that ends in the 400-and-close arm, never "
-    "merged with `header absent`, and (b) accept only 1*DIGIT (std integer parsers accept a leading `+`, so a digit-only guard must "
-    "dominate them); the rejecting arm closes the connection; framing headers are looked up case-insensitively, first occurrence, with "
-    "Transfer-Encoding disabling Content-Length.")
+    "Abstract path exploration of the header parsers, of the head reader and of new_request (helpers spliced in; independent of how the code is spelled): "
+    "a HeaderField is only accepted on paths on which a whitespace test of the whole, untrimmed name came out negative, and a header line is split at its "
+    "first colon with the untrimmed first part as the name; the text the head reader hands to the header parser, and the text it tests for the empty line, derive "
+    "from the received line through no function that removes leading whitespace; every Content-Length header found is checked to consist of ASCII digits and "
+    "converted, a failing check or conversion makes new_request return an error (never `no Content-Length`), that error is answered 400 and closes the "
+    "connection (traced into next()); framing headers are looked up by name case-insensitively, the first Content-Length decides, and a Transfer-Encoding "
+    "header disables Content-Length.")
 TRUSTED = ["rustc MIR / trait resolution", "grammar table of std integer parsers (usize::from_str / from_str_radix accept an optional leading '+')",
            "str::splitn / contains(char::is_whitespace) semantics"]
 
 LEADING_TRIM = re.compile(r"<impl str>::(trim|trim_start|trim_left|trim_start_matches|trim_left_matches|trim_matches|strip_prefix|split_whitespace|split_ascii_whitespace|trim_ascii|trim_ascii_start)$")
-INT_PARSE = taint.SOURCE
-MERGE_ABSENT = re.compile(r"(Result::<T, E>::(ok|unwrap_or|unwrap_or_else|unwrap_or_default|map_or|map_or_else|or|or_else)|Option::<T>::(unwrap_or|unwrap_or_else|unwrap_or_default))$")
+ANY_TRIM = re.compile(r"<impl str>::trim|strip_|split_whitespace|trim_ascii")
 
 
 def run(ctx):
     facts = ctx.facts
     roles.bind(facts)
+    PM = PRS.pmodel(facts)
+    FM = FRM.fmodel(facts)
     hf = method(facts, T_FROMSTR, HFIELD, "from_str")
     hd = method(facts, T_FROMSTR, HEADER, "from_str")
-    cc_read = roles.inherent(facts, CC, "read")
-    cc_next = method(facts, T_ITER, CC, "next")
-    nr = facts.fn("request::new_request")
 
     # ---- C16.1 whitespace in the name is rejected; split at the first colon
-    f = hf
+    f = inline.inlined(facts, hf.id, stop=lambda d: facts.fns[d].rec.get("local") and facts.fns[d].file != hf.file, extern_ok=Q.std_small)
     ctx.touch(f)
-    ws = []
-    for bb, t in f.calls():
-        if call_matches(t, r"<impl str>::contains") and any((a.get("fn") or "").endswith("<impl char>::is_whitespace") for a in t["args"]):
-            ws.append((bb, t))
-    ctx.ob("C16.1", "%s|whitespace-test" % f.id, "a header name is tested for any whitespace character", len(ws) >= 1, "%s:%d" % (f.file, f.line))
-    cons = set()
-    for bb, t in f.calls():
-        if any((a.get("fn") or "") == HFIELD for a in t["args"]):
-            cons.add(bb)
-    cons |= {bb for g, bb, s in facts.constructions(HFIELD) if g.id == f.id}
-    if ws:
-        bb, t = ws[0]
-        bs = bool_switch(f, t["target"])
-        ctx.require(bs is not None, "C16.1: whitespace test is not branched on")
-        outs = shared.eval_from(f, bs[1])
-        ok = bool(outs) and all(st.read_key((0,))[0] == "agg" and st.read_key((0,))[2] == "Err" for p, st in outs)
-        ctx.ob("C16.1", "%s|whitespace-rejected" % f.id, "a name containing whitespace yields Err", ok, f.loc(bb))
-        ok = bool(cons) and all(f.dominates(bs[2], c, unwind=False) for c in cons) and bs[1] != bs[2]
-        ctx.ob("C16.1", "%s|field-only-without-whitespace" % f.id, "a HeaderField is only built on the no-whitespace branch", ok, f.loc(bb))
-        recv = f.origin(t["args"][0])
-        ok = any(x == ("arg", 1) for x in origin_walk(recv))
-        ctx.ob("C16.1", "%s|tests-whole-input" % f.id, "the whitespace test looks at the whole name as given", ok and not origin_has_call(recv, r"trim"), f.loc(bb), origin_str(recv))
-    # HeaderField constructed elsewhere only through from_bytes (application side) / from_str
+    ps = [p for p in absint.explore(f, 0, None, max_paths=2000) if p.end[0] == "return"]
+    oks = [p for p in ps if p.ret()[0] == "agg" and p.ret()[2] == "Ok"]
+    bad = []
+    for p in oks:
+        tests = []
+        for bb, c in p.conds:
+            if not c or c[0] != "scalar" or not isinstance(c[2], bool):
+                continue
+            v, neg = c[1], False
+            while v[0] == "unop" and v[1] == "Not":
+                v, neg = v[2], not neg
+            if v[0] != "call":
+                continue
+            ws = any(x and x[0] == "const" and len(x) > 3 and x[3] and str(x[3]).endswith("<impl char>::is_whitespace") for x in absint.walk_terms(v)) or \
+                FRM.closure_calls_only(facts, v, r"is_whitespace$|is_ascii_whitespace$")
+            if not ws:
+                continue
+            val = c[2] != neg
+            whole = any(y and y[0] == "init" and y[1] and y[1][0] == 1 for y in absint.walk_terms(v[2][0])) and not any(y and y[0] == "call" and ANY_TRIM.search(y[1]) for y in absint.walk_terms(v))
+            if re.search(r"contains|Iterator>::any$|::find$|::position$", v[1]):
+                tests.append((not val) and whole)
+            elif re.search(r"Iterator>::all$", v[1]):
+                tests.append(val and whole)
+        for bb, c in p.conds:
+            if c and c[0] == "variant" and c[2] in ("Some", "None") and c[3] and c[3][0] == "call" and re.search(r"::find$|::position$", c[3][1]) and \
+                    any(x and x[0] == "const" and len(x) > 3 and x[3] and "is_whitespace" in str(x[3]) for x in absint.walk_terms(c[3])):
+                tests.append(c[2] == "None")
+        if not any(tests):
+            bad.append("accepted without a negative whitespace test of the whole name")
+    ctx.ob("C16.1", "%s|whitespace-rejected" % hf.id, "a header name is accepted only after a test of the whole, untrimmed name found no whitespace character (a name containing whitespace yields Err)",
+           bool(oks) and not bad, "%s:%d" % (hf.file, hf.line), None if not bad else str(bad[:2]))
+    # HeaderField constructed elsewhere only through its validating constructors (same module)
     for g, bb, t in facts.all_calls(lambda t: any((a.get("fn") or "") == HFIELD for a in t["args"])):
-        ok = g.id in (hf.id,) or g.id.startswith("common::HeaderField::from_bytes")
-        ctx.ob("C16.1", "field-ctor|%s" % g.id, "HeaderField values are created only by its two validating constructors", ok, g.loc(bb))
-    f = hd
-    ctx.touch(f)
-    sp = [(bb, t) for bb, t in f.calls() if call_matches(t, r"<impl str>::splitn")]
-    ok = len(sp) == 1
-    if ok:
-        cs = arg_consts(f, sp[0][1])
-        ok = cs[1] == 2 and cs[2] == ("char", ":") and f.origin(sp[0][1]["args"][0]) in (("arg", 1), ("ref", ("deref", ("arg", 1))), ("deref", ("arg", 1)))
-    ctx.ob("C16.1", "%s|split-at-first-colon" % f.id, "a header line is split once, at the first colon (so `Name :` keeps its space in the name)", ok, "%s:%d" % (f.file, f.line),
-           None if ok else str([arg_consts(f, t) for _, t in sp]))
-    # the field part is parsed with HeaderField::from_str and its failure fails the header
-    cl0 = [g for g in facts.find_fns(r"^<common::Header as std::str::FromStr>::from_str::\{closure") if g.call_blocks(lambda t: call_matches(t, r"parse::<common::HeaderField>$") or call_is(t, hf.id))]
-    direct = f.call_blocks(lambda t: call_matches(t, r"parse::<common::HeaderField>$") or call_is(t, hf.id))
-    ctx.ob("C16.1", "%s|name-through-HeaderField-parser" % f.id, "the name part is validated by HeaderField's parser", bool(cl0) or bool(direct), "%s:%d" % (f.file, f.line))
-    hc = [(bb, s) for g, bb, s in facts.constructions(HEADER) if g.id == f.id]
-    ctx.require(hc, "C16.1: Header construction not found in Header::from_str")
-    for bb, s in hc:
-        idx = s["rhs"]["fields"].index("field")
-        o = f.origin(s["rhs"]["ops"][idx])
-        nexts = [x for x in origin_calls(o) if x[1].endswith("as std::iter::Iterator>::next")]
-        first_next = min((b for b, t in f.calls() if call_name(t).endswith("as std::iter::Iterator>::next")), default=None)
-        ok = bool(nexts) and all(x[3] == first_next for x in nexts) and not origin_has_call(o, r"trim")
-        ctx.ob("C16.1", "%s|name-is-first-part" % f.id, "the stored name is the untrimmed text before the first colon", ok, f.loc(bb), origin_str(o))
-
-    # ---- C16.2 no leading-whitespace sanitiser in front of the check
-    g = cc_read
+        ctx.ob("C16.1", "field-ctor|%s" % g.id, "HeaderField values are created only inside the module that validates them", g.file == hf.file, g.loc(bb))
+    for g, bb, s in facts.constructions(HFIELD):
+        ctx.ob("C16.1", "field-ctor|%s" % g.id, "HeaderField values are created only inside the module that validates them", g.file == hf.file, g.loc(bb))
+    shared.header_split_rule(ctx, "C16.1")
+    # the name part goes through HeaderField's parser, untrimmed
+    same = lambda d: facts.fns[d].rec.get("local") and facts.fns[d].file == hd.file and ("FromStr" not in d or d.startswith(hd.id + "::"))
+    g = inline.inlined(facts, hd.id, stop=lambda d: facts.fns[d].rec.get("local") and not same(d), extern_ok=Q.std_small)
     ctx.touch(g)
-    sites = [(bb, t) for bb, t in g.calls() if call_is(t, hd.id)]
-    ctx.floor("C16.2 Header::from_str call sites in the connection parser", len(sites), 1)
-    rnl = roles.inherent(facts, CC, "read_next_line")
-    for i, (bb, t) in enumerate(sites):
-        o = g.origin(t["args"][0])
-        from_line = origin_has_call(o, r"ClientConnection::read_next_line$")
-        bad = [x[1] for x in origin_calls(o) if LEADING_TRIM.search(x[1])]
-        ctx.ob("C16.2", "%s|header-line-untrimmed|%d" % (g.id, i),
-               "the header line reaches Header::from_str with its leading whitespace intact (a leading trim would turn ` Name: v` / obs-fold lines into valid headers)",
-               from_line and not bad, g.loc(bb), None if (from_line and not bad) else "leading-whitespace remover on the way: %s (%s)" % ([short(b) for b in bad], origin_str(o)))
-    # the end-of-head test must look at the line as received: a line made only of blanks is not the empty line
-    # (it has to reach the header parser and be rejected), so nothing may strip it before `is_empty`
-    emp = [(bb, t) for bb, t in g.calls() if call_matches(t, r"::is_empty$") and origin_has_call(g.origin(t["args"][0]), r"ClientConnection::read_next_line$")]
-    ctx.ob("C16.2", "%s|empty-line-test-present" % g.id, "(anchor) the head ends at an empty line", bool(emp), "%s:%d" % (g.file, g.line), nontrivial=False)
-    for i, (bb, t) in enumerate(emp):
-        o = g.origin(t["args"][0])
-        bad = [x[1] for x in origin_calls(o) if re.search(r"<impl str>::trim|strip_|split_whitespace|trim_ascii", x[1])]
-        ctx.ob("C16.2", "%s|empty-line-untrimmed|%d" % (g.id, i), "the end-of-head test is made on the untrimmed line (a whitespace-only line is a malformed header, not the end of the head)",
-               not bad, g.loc(bb), None if not bad else "the line is stripped (%s) before the empty-line test: ` ` + CRLF ends the head and the rest of the head is parsed as a new request" % [short(b) for b in bad])
-    # any other local caller of Header::from_str on client text
-    for h, bb, t in facts.all_calls(lambda t: call_is(t, hd.id) or call_matches(t, r"parse::<common::Header>$")):
-        if h.id == g.id:
+    fld = [x["name"] for x in facts.adt(HEADER)["variants"][0]["fields"] if x["ty"] == HFIELD][0]
+    bad = []
+    okp = [p for p in absint.explore(g, 0, None, max_paths=3000) if p.end[0] == "return" and p.ret()[0] == "agg" and p.ret()[2] == "Ok"]
+    for p in okp:
+        h = absint.deep(p.state, p.ret()[3]["0"])
+        name_v = h[3].get(fld) if h[0] == "agg" else None
+        if name_v is None:
+            bad.append("no name")
             continue
-        ctx.ob("C16.2", "other-header-parse|%s" % h.id, "no other place parses client header lines", h.id not in [x for x in facts.local_fns if x.startswith("client::")], h.loc(bb), nontrivial=False)
+        parsers = [x for x in absint.walk_terms(name_v) if x and x[0] == "call" and (x[1] == hf.id or re.search(r"<impl str>::parse$", x[1]) and HFIELD in (x[4] if len(x) > 4 else ""))]
+        if not parsers:
+            bad.append("the name is not validated by HeaderField's parser")
+        elif any(y and y[0] == "call" and ANY_TRIM.search(y[1]) for y in absint.walk_terms(parsers[0][2][0])):
+            bad.append("the name is trimmed before it is validated")
+    ctx.ob("C16.1", "%s|name-through-HeaderField-parser" % hd.id, "the stored name is the untrimmed text before the first colon, validated by HeaderField's parser (so `Name :` keeps its space and is rejected)",
+           bool(okp) and not bad, "%s:%d" % (hd.file, hd.line), None if not bad else str(sorted(set(bad))[:3]))
+
+    # ---- C16.2 no leading-whitespace sanitiser in front of the header parser; the empty-line test looks at the untrimmed line
+    rd = PM.rd
+    ctx.touch(rd)
+    lines = PM.line_calls()
+    first = [b for b in lines if all(rd.dominates(b, x, unwind=False) for x in lines)]
+    LINE = ("sym", "a-header-line")
+    nrc = [bb for bb, t in rd.calls() if call_matches(t, r"^request::new_request$")]
+    n_sites = n_emp = 0
+    bad_trim, bad_emp = [], []
+    for b in [x for x in lines if x not in first]:
+        ic = rd.blocks[b]["inl_call"]
+        st = symex.Sym(rd)
+        st.write_key(pl_key(ic["dest"]), PRS.Ok_(LINE))
+        ps = absint.Explorer(rd, stop_blocks=set(lines), stop=lambda bb, t, s: "built" if bb in nrc else None, max_paths=4000, deep_events=True).run(ic["target"], st)
+        for p in ps:
+            for e in p.calls():
+                if rd.local_ty(rd.term(e[0])["dest"]["l"]).startswith("std::result::Result<common::Header,"):
+                    arg = (e[8] or e[3])[0] if (e[8] or e[3]) else None
+                    n_sites += 1
+                    if arg is None or not absint.contains(arg, LINE):
+                        bad_trim.append("the header parser is not given the received line")
+                    else:
+                        tr = [short(y[1]) for y in absint.walk_terms(arg) if y and y[0] == "call" and LEADING_TRIM.search(y[1])]
+                        if tr:
+                            bad_trim.append("leading-whitespace remover on the way: %s" % tr)
+            for bb, c in p.conds:
+                if c and c[0] == "scalar" and isinstance(c[2], bool) and c[1][0] == "call" and c[1][1].endswith("is_empty") and absint.contains(c[1], LINE):
+                    n_emp += 1
+                    tr = [short(y[1]) for y in absint.walk_terms(c[1]) if y and y[0] == "call" and ANY_TRIM.search(y[1])]
+                    if tr:
+                        bad_emp.append("the line is stripped (%s) before the empty-line test" % tr)
+    ctx.floor("C16.2 header-parser call sites on the head reader's paths", n_sites, 1)
+    ctx.ob("C16.2", "%s|header-line-untrimmed" % PM.read_def,
+           "the header line reaches the header parser with its leading whitespace intact (a leading trim would turn ` Name: v` / obs-fold lines into valid headers)",
+           not bad_trim, "%s:%d" % (rd.file, rd.line), None if not bad_trim else str(sorted(set(bad_trim))[:3]))
+    ctx.ob("C16.2", "%s|empty-line-untrimmed" % PM.read_def, "the end-of-head test is made on the untrimmed line (a whitespace-only line is a malformed header, not the end of the head)",
+           n_emp > 0 and not bad_emp, "%s:%d" % (rd.file, rd.line), None if not bad_emp else str(sorted(set(bad_emp))[:3]))
+    for h, bb, t in facts.all_calls(lambda t: call_is(t, hd.id) or call_matches(t, r"parse::<common::Header>$")):
+        if h.file == PM.file:
+            continue
+        ctx.ob("C16.2", "other-header-parse|%s" % h.id, "no other place of the connection code parses client header lines", not h.file.endswith("client.rs") and not h.file.endswith("request.rs"), h.loc(bb), nontrivial=False)
 
     # ---- C16.3 Content-Length value
-    cl_fns = [nr] + facts.find_fns(r"^request::new_request::\{closure")
-    parses = []
-    for h in cl_fns:
-        for bb, t in h.calls():
-            if INT_PARSE.search(call_name(t)) or INT_PARSE.search(t.get("res_name") or ""):
-                parses.append((h, bb, t))
-    if not parses:
-        ctx.ob("C16.3", "%s|content-length-digits-only|0" % nr.id,
-               "only 1*DIGIT is accepted: the Content-Length text is converted by a recognised integer parser behind a digits-only test",
-               False, "%s:%d" % (nr.file, nr.line),
-               "no recognised integer parse of the Content-Length value in new_request: a hand-written conversion cannot be shown to reject the empty value, signs, lists or overflow")
-    errs_ret = {bb for bb, i, s in nr.assigns() if s["lhs"] == {"l": 0, "p": []} and s["rhs"].get("variant") == "Err"}
-    for k, (h, bb, t) in enumerate(parses):
-        ctx.touch(h, calls=1)
-        # (a) failure must be an error of new_request
-        rs = shared.result_switch(h, bb)
-        merged = None
-        if rs and "consumed_by" in rs and MERGE_ABSENT.search(rs["consumed_by"]):
-            merged = rs["consumed_by"]
-        ok_a = False
-        detail = None
-        if merged:
-            detail = "the parse result goes through `%s`: an invalid Content-Length (e.g. `abc`, `1,2`, overflow) is treated like an absent header, the body is left in the stream and parsed as a second request" % short(merged)
-        elif rs and rs.get("err") is not None and h.id == nr.id:
-            reach = h.reach([rs["err"]], unwind=False)
-            region = shared.arm_region(h, rs["err"])
-            sets_err = any((h.term(b)["t"] == "call" and h.term(b).get("callee") == "std::ops::FromResidual::from_residual") or b in errs_ret for b in region)
-            req_cons = {b2 for g2, b2, s in facts.constructions(REQ) if g2.id == h.id}
-            ok_a = sets_err and not (reach & req_cons)
-            if not ok_a:
-                detail = "the error edge of the parse does not end in an Err return of new_request"
-        else:
-            detail = "the failure of the numeric parse is not turned into an error of new_request (%s)" % (rs,)
-        ctx.ob("C16.3", "%s|content-length-invalid-is-error|%d" % (h.id, k),
-               "a Content-Length that does not parse is an error of the request (400), never `no Content-Length`", ok_a, h.loc(bb), detail)
-        # (b) digits only
-        val = h.origin(t["args"][0])
-        guard = digit_guard(h, bb, val)
-        ctx.ob("C16.3", "%s|content-length-digits-only|%d" % (h.id, k),
-               "only 1*DIGIT is accepted: the std integer parser also accepts a leading `+`, so a digits-only test of the same text must dominate it",
-               guard is not None, h.loc(bb), guard or "no dominating digits-only guard: `Content-Length: +5` is accepted as 5 while other parsers reject or ignore it")
-    # the new_request error must be mapped to a 400-and-close arm by the connection parser
-    rce = "request::RequestCreationError"
-    variants = [v["name"] for v in facts.adt(rce)["variants"]]
-    maps = facts.find_fns(r"^client::ClientConnection::read::\{closure")
-    ctx.require(maps, "C16.3: error-mapping closure of read() not found")
-    mapped = {}
-    for mfn in maps:
-        for bb in sorted(mfn.live_blocks()):
-            sw = switch_on_discr(mfn, bb)
-            if sw and sw[0].get("adt") == rce:
-                rv, m, otherwise, rest = sw
-                for v in variants:
-                    tgt = m.get(v, otherwise if v in rest else None)
-                    if tgt is None:
-                        continue
-                    outs = shared.eval_from(mfn, tgt)
-                    kinds = set()
-                    for p, st in outs:
-                        val = st.read_key((0,))
-                        kinds.add(val[2] if val[0] == "agg" else "?")
-                    mapped[v] = kinds
-    ctx.counts["RequestCreationError mapping"] = {k: sorted(v) for k, v in mapped.items()}
-    for v in variants:
-        if v in ("ExpectationFailed", "CreationIoError"):
-            continue
-        ok = mapped.get(v) is not None and mapped[v] <= {"WrongHeader", "WrongRequestLine"}
-        ctx.ob("C16.3", "read-error-mapping|%s" % v, "a header-value error of new_request is answered like any malformed header (400, close)", ok, maps[0].file, str(mapped.get(v)))
+    nr0 = FM.nr0
+    where = "%s:%d" % (nr0.file, nr0.line)
+    rows = [r for r in FM.rows if r["end"] == "return"]
+    has_digits = any(a[0][0] == "cl_digits" for r in rows for a in r["atoms"])
+    has_parse = any(a[0][0] == "cl_parse" for r in rows for a in r["atoms"])
+    ctx.ob("C16.3", "%s|content-length-digits-only" % nr0.id,
+           "only 1*DIGIT is accepted: the Content-Length text is tested to consist of ASCII digits and converted by a recognised integer parser (the std parsers alone also accept a leading `+`)",
+           has_digits and has_parse, where, None if has_digits and has_parse else "digits test=%s integer parser=%s" % (has_digits, has_parse))
+    bad_inv, bad_every = [], []
+    n_two = 0
+    for r in rows:
+        ats = r["atoms"]
+        present = sum(1 for a, v in ats if a[:2] == ("present", "Content-Length") and v)
+        dig_t = sum(1 for a, v in ats if a[0] == "cl_digits" and v)
+        dig_f = sum(1 for a, v in ats if a[0] == "cl_digits" and not v)
+        par_t = sum(1 for a, v in ats if a[0] == "cl_parse" and v)
+        par_f = sum(1 for a, v in ats if a[0] == "cl_parse" and not v)
+        if (dig_f or par_f) and r["kind"] != "err":
+            bad_inv.append(Q._ret_str(r["path"])[:60])
+        if r["kind"] == "ok":
+            if present >= 2:
+                n_two += 1
+            if dig_t < present or par_t < present:
+                bad_every.append("%d Content-Length headers, %d digit tests, %d conversions (Transfer-Encoding present: %s)" % (present, dig_t, par_t, any(a[:2] == ("present", "Transfer-Encoding") and v for a, v in ats)))
+    ctx.ob("C16.3", "%s|content-length-invalid-is-error" % nr0.id, "a Content-Length that is not all digits or does not convert is an error of the request (400), never `no Content-Length`", not bad_inv, where,
+           None if not bad_inv else str(bad_inv[:3]))
+    ctx.ob("C16.3", "%s|content-length-every-occurrence" % nr0.id, "every Content-Length header of a request is validated, also a second one and also next to Transfer-Encoding", n_two > 0 and not bad_every, where,
+           None if not bad_every else str(sorted(set(bad_every))[:3]))
 
-    # ---- C16.4 the rejecting arm closes the connection (same obligation as C10.1 for WrongHeader)
-    f = cc_next
-    read_calls = set(f.call_blocks(lambda t: call_is(t, cc_read.id)))
-    some_bbs = {bb for bb, i, s in f.assigns() if s["lhs"] == {"l": 0, "p": []} and s["rhs"]["rv"] == "agg" and s["rhs"].get("variant") == "Some"}
-    statuses = shared.status_consts_in(f)
-    for bb in sorted(f.live_blocks()):
-        sw = switch_on_discr(f, bb)
-        if sw and sw[0].get("adt") == READERR and not f.blocks[bb]["cleanup"] and origin_has_call(f.origin_place(sw[0]["pl"]), r"ClientConnection::read$"):
-            rv, m, otherwise, rest = sw
-            tgt = m.get("WrongHeader", otherwise if "WrongHeader" in rest else None)
-            ctx.require(tgt is not None, "C16.4: WrongHeader arm not found")
-            reach = f.reach([tgt], unwind=False)
-            region = shared.arm_region(f, tgt)
-            ok = not (reach & (read_calls | some_bbs)) and {c for b2, c in statuses if b2 in region} == {400}
-            ctx.ob("C16.4", "%s|WrongHeader-400-close" % f.id, "a rejected header is answered 400 and nothing after it on the connection is parsed", ok, f.loc(tgt))
-            break
-    else:
-        raise CheckerError("C16.4: match on ReadError not found")
-    # read(): a failing Header::from_str returns WrongHeader without continuing
-    for i, (bb, t) in enumerate(sites):
-        rs = shared.result_switch(g, bb)
-        ok = False
-        if rs and rs.get("err") is not None:
-            region = shared.arm_region(g, rs["err"])
-            ok = any(s["s"] == "assign" and s["rhs"].get("variant") == "WrongHeader" for b in region for s in g.stmts(b))
-        ctx.ob("C16.4", "%s|bad-header-is-WrongHeader|%d" % (g.id, i), "an unparsable header line makes read() fail with WrongHeader", ok, g.loc(bb))
+    # ---- C16.4 the rejecting arms close the connection with 400 (traced from the head reader into next())
+    PRS.trace_and_judge(ctx, "C16.4", "C16.4", only=lambda label: label == "malformed header line" or (label.endswith("reported by new_request") and "xpect" not in label))
 
     # ---- C16.5 framing header lookup
-    lookups, te_tests, CLl = shared.te_precedence(ctx, "C16.5", "TE-disables-CL")
+    seen = {a[0][1] for r in rows for a in r["atoms"] if a[0][0] == "present"}
     for name in ("Transfer-Encoding", "Content-Length"):
-        ctx.ob("C16.5", "%s|lookup-%s" % (nr.id, name), "%s is looked up case-insensitively (HeaderField::equiv)" % name, name in lookups, "%s:%d" % (nr.file, nr.line))
-    # first occurrence decides: either Iterator::find, or a forward loop that keeps the first value (get_or_insert)
-    for name in ("Transfer-Encoding", "Content-Length"):
-        okf = False
-        how = None
-        for bb, t in nr.calls():
-            if call_matches(t, r"Iterator>?::(find|filter)(::<|$)") and len(t["args"]) > 1:
-                clo = nr.origin(t["args"][1])
-                if clo[0] == "agg" and clo[1] in lookups.get(name, []):
-                    recv = nr.origin(t["args"][0])
-                    fwd = origin_has_call(recv, r"<impl \[common::Header\]>::iter$|<impl \[T\]>::iter$") and not origin_has_call(recv, r"::rev$|::skip")
-                    if t["name"] == "find" and fwd:
-                        okf, how = True, "find"
-                    if t["name"] == "filter" and fwd:
-                        keeps_first = any(call_matches(t2, r"Option::<T>::get_or_insert(_with)?$") for b2, t2 in nr.calls())
-                        overwrites = False
-                        if keeps_first:
-                            okf, how = True, "filter + get_or_insert"
-        ctx.ob("C16.5", "%s|first-%s" % (nr.id, name), "the first %s header in arrival order is the one used" % name, okf, "%s:%d" % (nr.file, nr.line), how)
-    # ---- C16.3(c) every Content-Length value is validated, unconditionally
-    for k, (h, bb, t) in enumerate(parses):
-        if h.id != nr.id:
-            ctx.ob("C16.3", "%s|content-length-every-occurrence|%d" % (h.id, k), "every Content-Length header of a request is validated (not only the first one)", False, h.loc(bb),
-                   "the value is parsed inside a first-match lookup (`find`): a second Content-Length header, or one next to Transfer-Encoding, is never looked at")
+        ctx.ob("C16.5", "%s|lookup-%s" % (nr0.id, name), "%s is looked up by name, case-insensitively" % name, name in seen, where)
+    bad, n_rows = FRM.table_mismatches(FM, {"reader", "length"}, merge={"buffer": "exactly-CL", "equal": "exactly-CL"})
+    bad = [b for b in bad if b[0]["te"]]
+    ctx.ob("C16.5", "%s|TE-disables-CL" % nr0.id, "with a Transfer-Encoding header the body is chunk-decoded and no length is declared, whatever Content-Length says", not bad, where, None if not bad else str(bad[:3]))
+    # first occurrence decides
+    bad_first = []
+    n2 = 0
+    for r in rows:
+        if r["kind"] != "ok" or not r["length"]:
             continue
-        in_loop = h.in_loop(bb)
-        filt = [b2 for b2, t2 in h.calls() if call_matches(t2, r"Iterator>?::filter(::<|$)") and len(t2["args"]) > 1 and h.origin(t2["args"][1])[0] == "agg"
-                and h.origin(t2["args"][1])[1] in lookups.get("Content-Length", [])]
-        ok_all = in_loop and bool(filt) and all(h.dominates(b2, bb, unwind=False) for b2 in filt)
-        ctx.ob("C16.3", "%s|content-length-every-occurrence|%d" % (h.id, k), "every Content-Length header of a request is validated (not only the first one)", ok_all, h.loc(bb),
-               None if ok_all else "the numeric check is not inside a loop over all headers named Content-Length")
-        cond = [1 for _, pres, absent in te_tests if h.dominates(pres, bb, unwind=False) or h.dominates(absent, bb, unwind=False)]
-        ctx.ob("C16.3", "%s|content-length-validated-regardless-of-TE|%d" % (h.id, k), "a malformed Content-Length is rejected even when a Transfer-Encoding header is present", not cond, h.loc(bb),
-               None if not cond else "the validation only runs on one side of the Transfer-Encoding test")
+        ats = r["atoms"]
+        if sum(1 for a, v in ats if a[:2] == ("present", "Content-Length") and v) < 2 or any(a[:2] == ("present", "Transfer-Encoding") and v for a, v in ats):
+            continue
+        n2 += 1
+        L = absint.deep(r["path"].state, r["length"][0])
+        h = absint.head_call(L[1]) if L[0] == "some" else None
+        if h is None or (h[5] if len(h) > 5 else 1) != 1:
+            # the conversion of the first header is the first execution of the conversion site... unless both are converted at different sites
+            sites = sorted({(e[0]) for e in r["path"].calls() if FRM.INT_PARSE.search(e[2] + " " + (e[7] or ""))})
+            order = [e[0] for e in r["path"].calls() if FRM.INT_PARSE.search(e[2] + " " + (e[7] or ""))]
+            if h is None or not order or h[3] != order[0] or (len(sites) == 1 and (h[5] if len(h) > 5 else 1) != 1):
+                bad_first.append(symex.sym_str(L)[:80])
+    ctx.ob("C16.5", "%s|first-Content-Length" % nr0.id, "with several Content-Length headers the first one in arrival order is the one used", n2 > 0 and not bad_first, where, None if not bad_first else str(bad_first[:3]))
     return {}
-
-
-def digit_guard(h, bb, val):
-    """a dominating test that the parsed text consists of ASCII digits only.
-    Recognised: `bytes()/chars().all(|c| c.is_ascii_digit())` on the same text, with the parse on
-    the true edge."""
-    dom = h.dominators(False)
-    for b in sorted(dom[bb]):
-        bs = bool_switch(h, b)
-        if not bs:
-            continue
-        o = h.origin(bs[0])
-        neg = False
-        while o[0] == "unop" and o[1] == "Not":
-            neg = not neg
-            o = o[2]
-        if o[0] != "call" or not re.search(r"Iterator>?::all(::<|$)", o[1]):
-            continue
-        it = o[2][0]
-        src_ok = False
-        for x in origin_walk(it):
-            if x[0] == "call" and re.search(r"<impl str>::(bytes|chars)$", x[1]) and x[2]:
-                if taint.origin_eq(x[2][0], val) or origin_str(x[2][0]) == origin_str(val):
-                    src_ok = True
-        clo = o[2][1] if len(o[2]) > 1 else None
-        digit = False
-        if clo and clo[0] == "agg":
-            cf = h.facts.fn_opt(clo[1])
-            if cf and cf.call_blocks(lambda t: call_matches(t, r"is_ascii_digit$")) and not cf.call_blocks(lambda t: not call_matches(t, r"is_ascii_digit$")):
-                digit = True
-        if not (src_ok and digit):
-            continue
-        edge = bs[2] if neg else bs[1]
-        other = bs[1] if neg else bs[2]
-        if edge != other and h.dominates(edge, bb, unwind=False):
-            return "dominated by `text.bytes().all(is_ascii_digit)`"
-    return None
